@@ -7,7 +7,7 @@ export CARGO_NET_OFFLINE=true CARGO_TARGET_DIR=$W/target
 cd $W || exit 2
 echo "== confirm in worktree $W"
 cp OUT/seed_demo.rs tests/seed_demo.rs 2>/dev/null
-git diff --quiet -- src && git apply OUT/patch.diff
+git checkout -- src; git apply OUT/patch.diff || { echo "patch does not apply in worktree"; exit 3; }
 cargo test --offline --test seed_demo > OUT/confirm_with.log 2>&1; echo "demo with change: rc=$? ($(grep -E '^test result' OUT/confirm_with.log | tail -1))"
 git diff -- src > /tmp/seed_patch_$$.diff; git checkout -- src
 cargo test --offline --test seed_demo > OUT/confirm_without.log 2>&1; echo "demo without change: rc=$? ($(grep -E '^test result' OUT/confirm_without.log | tail -1))"
